@@ -60,7 +60,7 @@ FromName(h, cli, strict) ==
               \* not say whether that is "<id>.<name> with a bad id" (error) or
               \* simply a name that carries no id, so without strict checking
               \* both are admitted.  It is never attributed to anybody.
-              ELSE IF Head(cli) = "EMPTY" /\ ~strict THEN {None, Err}
+              ELSE IF Head(cli) \in {"EMPTY", ""} /\ ~strict THEN {None, Err}
               ELSE {Err}
     ELSE IF ~strict THEN {None}
     ELSE IF Deeper(cli, h) THEN {None, Err}
